@@ -43,6 +43,11 @@ func (e *Enc) specEnv(old, cur *State, results []Term) *specEnv {
 		e.prog.aliasName(se.binds, e.fn, "params", i, p.Name())
 	}
 	for i, fv := range e.fn.FreeVars {
+		if e.prog.recordedAsParam(e.fn, fv.Name()) {
+			// the contract's name means the parameter that was called so when it was written (bound above under its
+			// recorded name): a variable of that name captured since then must not take its place
+			continue
+		}
 		se.binds[fv.Name()] = specVal{t: e.vals[fv], typ: fv.Type(), cell: true}
 		e.prog.aliasName(se.binds, e.fn, "freevars", i, fv.Name())
 	}
@@ -502,6 +507,31 @@ func (se *specEnv) localByName(name string) (specVal, bool) {
 					}
 					return specVal{t: t, typ: phi.Type()}, true
 				}
+			}
+		}
+	}
+	// a variable that lives in exactly one cell (captured by a closure, or its address taken) is read from that cell in
+	// the current state: the value the debug information attaches to its defining statement (`run := make(...)`)
+	// would be the stale initial value
+	{
+		var only *ssa.Alloc
+		n := 0
+		for _, b := range se.fn.Blocks {
+			for _, ins := range b.Instrs {
+				if a, ok := ins.(*ssa.Alloc); ok && a.Comment == name {
+					n++
+					only = a
+				}
+			}
+		}
+		if n == 1 {
+			if e.localCells[only] {
+				t := derefType(only.Type())
+				return specVal{t: e.lookup(se.cur, e.localName(only), e.tr.sortOf(t)), typ: t}, true
+			}
+			if p, ok := e.vals[only]; ok {
+				t := derefType(only.Type())
+				return specVal{t: e.loadPtr(se.cur, p, t), typ: t}, true
 			}
 		}
 	}
